@@ -794,6 +794,9 @@ func ruleL8(p *Prog, r *Report) {
 					r.Bad(R, cons, p.InstrPos(in), "new root slab literal has no slab id initialiser")
 					return
 				}
+			} else if cv, inCallee, ok := constructorField(st.Val, "header", "slabID"); ok && !inCallee {
+				// fresh slab built by a private constructor: the id it is given
+				idv = cv
 			} else {
 				// existing slab promoted: SetSlabID(id) on the new root on every success path after the store
 				var setID ssa.CallInstruction
